@@ -50,6 +50,9 @@ pub struct Case {
     /// leaf value table (0 ordinary, 1 widely different magnitudes)
     #[serde(default)]
     pub leafset: u8,
+    /// when present: the many-names pass (size, stored order) of largeops.rs
+    #[serde(default)]
+    pub large: Option<(usize, u8)>,
 }
 
 pub trait RN: Clone + Send + Sync {
@@ -960,8 +963,178 @@ fn eval_expr<T: RN>(ex: &Expr, leaves: &[T], forms: bool, acc: &mut Acc, prop: &
     }
 }
 
+/// A menu of DEEP formulas (10 .. 60 operators), every intermediate stage judged as a program of its own:
+/// the breadth-first space ends at 3-4 operators, these chains exercise repeated re-alignment of variable
+/// lists, long products of derivative scalings and accumulated magnitudes.
+pub fn deep_formulas() -> Vec<(String, Vec<Expr>)> {
+    fn l(i: u8) -> Expr {
+        Expr::Leaf(i)
+    }
+    fn c(f: f64) -> Expr {
+        Expr::Lit(f)
+    }
+    fn un(n: &str, a: Expr) -> Expr {
+        Expr::Un(n.to_string(), Box::new(a))
+    }
+    fn bin(n: &str, a: Expr, b: Expr) -> Expr {
+        Expr::Bin(n.to_string(), Box::new(a), Box::new(b))
+    }
+    let (x, y, w, v, k) = (l(0), l(1), l(2), l(3), l(4));
+    let mut out: Vec<(String, Vec<Expr>)> = vec![];
+    // 1 Horner scheme in y
+    {
+        let coef = [x.clone(), w.clone(), v.clone(), c(0.5), k.clone()];
+        let mut acc = x.clone();
+        let mut stages = vec![];
+        for i in 0..14 {
+            acc = bin("add", bin("mul", acc, y.clone()), coef[i % 5].clone());
+            stages.push(acc.clone());
+        }
+        out.push(("horner".into(), stages));
+    }
+    // 2 continued fraction
+    {
+        let coef = [x.clone(), y.clone(), v.clone()];
+        let mut acc = y.clone();
+        let mut stages = vec![];
+        for i in 0..12 {
+            let inv = if i % 2 == 0 { un("pow-1", acc) } else { bin("div", c(1.0), acc) };
+            acc = bin("add", coef[i % 3].clone(), inv);
+            stages.push(acc.clone());
+        }
+        out.push(("continued-fraction".into(), stages));
+    }
+    // 3 exp / log tower
+    {
+        let mut acc = x.clone();
+        let mut stages = vec![];
+        for i in 0..8 {
+            acc = un("log", bin("add", un("exp", acc), if i % 2 == 0 { y.clone() } else { v.clone() }));
+            stages.push(acc.clone());
+        }
+        out.push(("exp-log-tower".into(), stages));
+    }
+    // 4 normal cdf / inverse cdf ping-pong
+    {
+        let mut acc = bin("mul", x.clone(), c(0.3));
+        let mut stages = vec![];
+        for _ in 0..6 {
+            acc = bin("add", un("inv_norm_cdf", bin("add", bin("mul", un("norm_cdf", acc), c(0.9)), c(0.05))), bin("mul", w.clone(), c(0.1)));
+            stages.push(acc.clone());
+        }
+        out.push(("cdf-ping-pong".into(), stages));
+    }
+    // 5 powers
+    {
+        let mut acc = v.clone();
+        let mut stages = vec![];
+        for i in 0..8 {
+            acc = un("pow0.5", bin("add", un("pow2", acc), x.clone()));
+            acc = if i % 2 == 0 { bin("div", acc, y.clone()) } else { bin("mul", acc, y.clone()) };
+            stages.push(acc.clone());
+        }
+        out.push(("power-chain".into(), stages));
+    }
+    // 6 a long sum of products (24 terms)
+    {
+        let ls = [x.clone(), y.clone(), w.clone(), v.clone()];
+        let mut acc = bin("mul", ls[0].clone(), c(1.0));
+        let mut stages = vec![];
+        for i in 1..24 {
+            let term = bin("mul", ls[i % 4].clone(), if i % 3 == 0 { ls[(i + 1) % 4].clone() } else { c(1.0 / (i as f64 + 1.0)) });
+            acc = if i % 5 == 4 { bin("sub", acc, term) } else { bin("add", acc, term) };
+            stages.push(acc.clone());
+        }
+        out.push(("long-sum".into(), stages));
+    }
+    // 7 Black-Scholes call: S = v, K = y, sigma = x, r = 0.05 * const, T = 1.5
+    {
+        let t = 1.5_f64;
+        let r = bin("mul", k.clone(), c(0.05));
+        let sig_rt = bin("mul", x.clone(), c(t.sqrt()));
+        let d1 = bin("div", bin("add", un("log", bin("div", v.clone(), y.clone())), bin("mul", bin("add", r.clone(), bin("mul", un("pow2", x.clone()), c(0.5))), c(t))), sig_rt.clone());
+        let d2 = bin("sub", d1.clone(), sig_rt.clone());
+        let disc = un("exp", bin("mul", un("neg", r.clone()), c(t)));
+        let price = bin("sub", bin("mul", v.clone(), un("norm_cdf", d1.clone())), bin("mul", bin("mul", y.clone(), disc.clone()), un("norm_cdf", d2.clone())));
+        out.push(("black-scholes".into(), vec![d1, d2, disc, price]));
+    }
+    // 8 balanced tree of depth 5 over the leaves
+    {
+        let ls = [x.clone(), y.clone(), v.clone(), k.clone(), l(5), l(7)];
+        let ops = ["add", "mul", "add", "div", "mul"];
+        let mut level: Vec<Expr> = (0..32).map(|i| ls[i % 6].clone()).collect();
+        let mut stages = vec![];
+        let mut d = 0;
+        while level.len() > 1 {
+            level = level.chunks(2).enumerate().map(|(j, p)| bin(ops[(d + j) % 5], p[0].clone(), p[1].clone())).collect();
+            stages.push(level[0].clone());
+            d += 1;
+        }
+        out.push(("balanced-tree".into(), stages));
+    }
+    // 9 sign games
+    {
+        let mut acc = w.clone();
+        let mut stages = vec![];
+        for i in 0..10 {
+            acc = un("abs", bin("sub", bin("mul", un("neg", acc), y.clone()), x.clone()));
+            if i % 3 == 2 {
+                acc = un("pow3", bin("mul", acc, c(0.25)));
+            }
+            stages.push(acc.clone());
+        }
+        out.push(("sign-chain".into(), stages));
+    }
+    out
+}
+
+pub fn explore_deep<T: RN>(prop: &str) -> (Acc, serde_json::Value) {
+    let mut total = Acc::new();
+    let mut count = 0u64;
+    let mut skipped = 0u64;
+    for ls in 0..2u8 {
+        set_leafset(ls);
+        let leaves = T::make_leaves();
+        for (name, stages) in deep_formulas() {
+            for (si, ex) in stages.iter().enumerate() {
+                let mut scratch = Acc::new();
+                total.eval();
+                match guarded(|| {
+                    let mut a = Acc::new();
+                    let r = eval_expr::<T>(ex, &leaves, true, &mut a, &format!("{}/deep", prop));
+                    (a, r.is_some())
+                }) {
+                    Ok((a, evaluated)) => {
+                        scratch = a;
+                        if evaluated {
+                            total.nontrivial();
+                            count += 1;
+                        } else {
+                            total.skip();
+                            skipped += 1;
+                        }
+                    }
+                    Err(m) => total.violate(&format!("{}/deep/panic", prop), count, json!({"expr": ex, "leafset": ls}), json!("a value"), json!(m)),
+                }
+                for v in scratch.violations {
+                    total.violate(&v.key, (si as u64) << 8 | ls as u64, json!({"expr": ex, "leafset": ls}), v.expected, json!(format!("stage {} of {}: {}", si + 1, name, v.observed)));
+                }
+                if si + 1 == stages.len() && ls == 0 {
+                    total.sample(|| json!({"formula": name, "stages": stages.len(), "expr": ex}));
+                }
+            }
+        }
+    }
+    set_leafset(0);
+    (total, json!({"formulas": deep_formulas().len(), "stages_evaluated": count, "stages_outside_domain": skipped, "leaf_tables": 2}))
+}
+
 pub fn replay_case<T: RN>(prop: &str, case: &Case, _idx: u64, acc: &mut Acc) {
     set_leafset(case.leafset);
+    if let Some((size, stored)) = case.large {
+        crate::largeops::large_unary(size, stored, T::SECOND, prop, serde_json::to_value(case).unwrap(), _idx, acc);
+        return;
+    }
     if let Some(n) = case.fresh_sequence_upto {
         // rebuild the (deterministic) pool of <= 2-operator programs, then replay the sequential pass
         let leaves = T::make_leaves();
